@@ -83,6 +83,8 @@ def h06_atoms(b0: bool, b1: bool, b2: bool, b3: bool, b4: bool, b5: bool) -> boo
         d = None
         if dflt == "fit":
             d = CC.arg_value(("T",), ann[1] if ann[0] in ("atom", "union") else 0, atoms)
+        elif dflt == "fit2":
+            d = CC.arg_value(("T",), 2, atoms)  # a default of atom 2 for a T-typed parameter
         elif dflt == "none":
             d = KnownValue(None)  # a default that does not belong to the annotation
         params.append((f"p{i}", tuple(ann), d))
@@ -118,7 +120,15 @@ def h06_atoms(b0: bool, b1: bool, b2: bool, b3: bool, b4: bool, b5: bool) -> boo
     if isinstance(S, AnyValue):
         return fin(True, nontrivial=False)
     for (nm, ann, d), a in zip(params, args):
-        if a in ("omit", "any"):
+        if a == "any":
+            continue
+        if a == "omit":
+            # the default is what the parameter receives: the solution must make it acceptable too
+            # (a function `return y` hands it back, so the inferred result has to contain it)
+            if d is None or ann[0] != "T":
+                continue
+            if not ref_accepts(rel, S, d):
+                return fin(False)
             continue
         if a == "none":
             return fin(False)  # None is not an atom: an accepted call cannot have passed it to an atom/T of atoms
@@ -168,7 +178,7 @@ def h06_real(p0: int, p1: int, oi: int, oj: int, oi2: int, s: str) -> bool:
 def _lab(params, tv, args, ret):
     def one(p):
         ann, d = p
-        return ":".join(map(str, ann)) + {"fit": "=", "none": "=None", None: ""}[d]
+        return ":".join(map(str, ann)) + {"fit": "=", "fit2": "=a2", "none": "=None", None: ""}[d]
     return ",".join(one(p) for p in params) + "|" + ":".join(map(str, tv)) + "|" + ",".join(str(a) for a in args) + "->" + (":".join(map(str, ret)) if ret else "-")
 
 
@@ -212,6 +222,15 @@ def cases(tier: str, seed: int) -> List[Case]:
                         out.append(Case("h06_atoms", "g:" + _lab([(a, None) for a in pa], tv, args, ret),
                                         {"params": params, "tv": list(tv), "args": [list(a) if isinstance(a, list) else a for a in args], "ret": list(ret)},
                                         timeout=90 if quick else 240, twin=(idx % 9 == 0), vacuous_ok=True))
+    # the same type variable on a passed parameter and on an omitted defaulted one
+    for first in (("T",), ("boxT",)):
+        for a0 in (0, 1, ["u", 0, 1]):
+            for ret in (("T",), ("boxT",)):
+                pa = (first, ("T",))
+                dl = "g:" + _lab([(pa[0], None), (pa[1], "fit2")], ("plain",), (a0, "omit"), ret)
+                out.append(Case("h06_atoms", dl, {"params": [[list(pa[0]), None], [list(pa[1]), "fit2"]], "tv": ["plain"],
+                                                  "args": [a0, "omit"], "ret": list(ret)},
+                                timeout=90 if quick else 240, twin=True, vacuous_ok=True))
     # real constructors
     for t in REAL_TYPES:
         for k in REAL_ARGS:
